@@ -22,6 +22,7 @@ scores admit no assignment covering its smaller side; ``valid-input`` otherwise)
 import itertools
 import math
 from collections import Counter
+from fractions import Fraction
 
 from vlib import env, runner
 from vlib.runner import Part, Result
@@ -248,8 +249,10 @@ def min_peaks_bounds(mip_kind, mip, n_nodes):
     f = float(mip)
     if not f > 0:
         return 0, 0
-    t = f * n_nodes
-    return math.floor(t - 1e-9), math.ceil(t + 1e-9)
+    # exact rational product: the docstring fixes no rounding rule, and a floating point
+    # product lies between floor and ceil of the exact one, so [floor, ceil] covers both
+    t = Fraction(f) * n_nodes
+    return math.floor(t), math.ceil(t)
 
 
 def judge_instances(res, part, node_peaks, edges, accepted, n_nodes, mip_kind, mip, out):
@@ -289,6 +292,8 @@ def judge_instances(res, part, node_peaks, edges, accepted, n_nodes, mip_kind, m
             used[n][key] += 1
             row.append(key)
         rows.append(tuple(row))
+    if any(k is not None and k[0] == "?" for row in rows for k in row):
+        return facts  # root cause reported; the component comparison would only echo it
     for n in range(n_nodes):
         for key, c in used[n].items():
             if c > avail[n][key]:
@@ -758,6 +763,8 @@ def _eval_predict(case):
         n_out += facts["n_out"]
         dropped += facts["dropped"]
     res.cls("instances-out" if n_out else "no-instances-out")
+    if n_out >= 2:
+        res.cls("instances-out>=2")
     if dropped:
         res.cls("small-instance-dropped")
     if n_acc == 0:
@@ -820,7 +827,7 @@ def _strategies():
         by_node = [[g for g, c in enumerate(chan) if c == n] for n in range(n_nodes)]
         vals = draw(st.sampled_from(["quarter", "quarter", "float", "wide", "const"]))
         special = draw(
-            st.sampled_from(["none", "none", "none", "nan", "neginf", "mixed", "row", "col", "row+col", "missing", "posinf"])
+            st.sampled_from(["none"] * 5 + ["nan", "nan", "neginf", "mixed", "mixed", "row", "col", "row+col", "missing", "posinf"])
         )
         vstrat = {"quarter": quarter, "float": f32, "wide": f32wide, "const": st.just(draw(quarter))}[vals]
         cands = []
@@ -1028,7 +1035,7 @@ def _strategies():
             paf["seed"] = draw(st.integers(0, 2**31 - 1))
             paf["scale"] = draw(st.sampled_from([0.25, 1.0, 1.0, 3.0]))
         mip_kind, mip = draw_min_peaks(draw, n_nodes)
-        min_line = draw(st.sampled_from([-8.0, -1.0, -0.5, 0.0, 0.0, 0.25, 0.25, 0.5, 0.75]))
+        min_line = draw(st.sampled_from([-8.0, -8.0, -1.0, -1.0, -0.5, 0.0, 0.0, 0.25, 0.25, 0.5, 0.75]))
         params = {
             "n_points": draw(st.integers(1, 12)),
             "max_edge_length_ratio": draw(st.sampled_from([0.01, 0.1, 0.25, 0.25, 0.5, 1.0, 2.0])),
@@ -1070,25 +1077,25 @@ def parts(tier):
             name="match",
             evaluate=eval_match,
             strategy=strat_match,
-            budget={"quick": 1200, "thorough": 60000},
+            budget={"quick": 1500, "thorough": 100000},
             shards={"quick": 1, "thorough": 16},
-            min_nontrivial={"quick": 300, "thorough": 15000},
+            min_nontrivial={"quick": 250, "thorough": 15000},
         ),
         Part(
             name="group",
             evaluate=eval_group,
             strategy=strat_group,
-            budget={"quick": 1200, "thorough": 60000},
+            budget={"quick": 1500, "thorough": 100000},
             shards={"quick": 1, "thorough": 16},
-            min_nontrivial={"quick": 300, "thorough": 15000},
+            min_nontrivial={"quick": 250, "thorough": 15000},
         ),
         Part(
             name="predict",
             evaluate=eval_predict,
             strategy=strat_predict,
-            budget={"quick": 800, "thorough": 30000},
+            budget={"quick": 900, "thorough": 60000},
             shards={"quick": 1, "thorough": 16},
-            min_nontrivial={"quick": 200, "thorough": 7000},
+            min_nontrivial={"quick": 200, "thorough": 12000},
         ),
     ]
 
